@@ -579,7 +579,10 @@ RULE = ("run i draws, from random.Random(splitmix64(VERIF_SEED,'C15',i)), a "
         "op mix and <=50 declaration intents {base type (with/without "
         "reference unit, quantum), derived type (1-3 factors, exponents "
         "-3..3, derived-of-derived, explicit/generated reference symbol), "
-        "scaled unit (int/Decimal/Fraction/float/SI prefix off any parent), "
+        "scaled unit (int/Decimal/Fraction/float/SI prefix off any parent, "
+        "also in base types WITHOUT reference unit: convertible among the "
+        "multiples of one unit only), symbols that look like generated ones "
+        "(a/b, a2), plain ints as only numeric element of a term, "
         "term-defined unit, unit derived from base-type units, plain unit, "
         "currency registration/declaration, and the must-reject forms: "
         "taken dimension written differently, term of another dimension, "
@@ -589,7 +592,8 @@ RULE = ("run i draws, from random.Random(splitmix64(VERIF_SEED,'C15',i)), a "
         "RefDir model; after every step every declared unit and type is "
         "checked (identity under its symbol, listed by exactly its type, "
         "factory dispatch for number+unit and string, exact scale to and "
-        "from the reference unit and between neighbours, reference unit "
+        "from the reference unit, between neighbours and among the five "
+        "youngest units of a type, reference unit "
         "of derived types, the base type Quantity lists nothing). Distinct "
         "= digest of (configuration, intents); non-trivial = >=1 rejected "
         "declaration or eviction fired, >=2 user types and >=3 user units.")
